@@ -165,7 +165,7 @@ def wrap_label_order(ctx) -> None:
 def primitives(ctx) -> None:
     prog = ctx.prog
     cc = prog.func(f'{MEMBER}:Compound.compose')
-    ctx.check(core.src(cc.body[-1]) == 'return scope.expand().extend(*self.expand())', 'C03.scope', cc, 'Compound.compose = scope.expand() extended by the own expansion (explicit scoping is preserved)', cc.node, key='Compound.compose')
+    ctx.check(core.src(cc.inlined().node.body[-1]) == 'return scope.expand().extend(*self.expand())', 'C03.scope', cc, 'Compound.compose = scope.expand() extended by the own expansion (explicit scoping is preserved)', cc.node, key='Compound.compose')
     ce = prog.func(f'{MEMBER}:Compound.expand')
     ctx.check(core.src(ce.body[-1]) == 'return self._right.compose(self._left)', 'C03.scope', ce, 'Compound.expand = right.compose(left)', ce.node, key='Compound.expand')
     ci = prog.func(f'{MEMBER}:Compound.__init__')
